@@ -170,7 +170,10 @@ pub fn metadata_sweep(rep: &mut Report, thorough: bool) {
             for (id, _) in st {
                 let raw = w.reps[r].store.get(&format!("{}.delta", id)).unwrap();
                 let j: Value = serde_json::from_slice(&raw).unwrap();
-                let d = w.reps[r].m.get_delta(&melda::melda::DeltaId::from(&id).unwrap()).unwrap().unwrap();
+                let Some(d) = melda::melda::DeltaId::from(&id).ok().and_then(|did| w.reps[r].m.get_delta(&did).ok().flatten()) else {
+                    cx.violation("C11", "C11:metadata-differs-from-raw", &sc, &hist, json!({"replica": r, "block": id, "error": "the block cannot be fetched by its reported identifier"}));
+                    continue;
+                };
                 if j.get("i").cloned() != d.info.map(Value::Object) {
                     cx.violation("C11", "C11:metadata-differs-from-raw", &sc, &hist, json!({"replica": r, "block": id}));
                 }
